@@ -129,9 +129,15 @@ package iterator
 //@     assert [C02:the-data-iterator-is-sought-at-the-callers-key] sameslice(arg0, key) && recv == i.data
 //@   at before call (*indexedIterator).Next#1
 //@     assert [C02:a-block-with-nothing-at-or-after-the-key-is-left-before-moving-on] i.data == nil
+// (an index that has nothing at or after the key leaves the iterator behind the end: no block stays in hand, or Valid,
+// Key and the relative moves would go on from the old position)
+//@   at before stmt return false#3
+//@     assert [C02:a-seek-behind-the-last-block-leaves-no-block-in-hand] i.data == nil
 //@ func (*indexedIterator).Last
 //@   props C02 C18
 //@   safety off
+//@   at before stmt return false#3
+//@     assert [C02:an-empty-index-leaves-no-block-in-hand] i.data == nil
 //@   ensures [C02,C18:a-released-iterator-reports-that-it-was-released] (old(i.err) == nil && old(i.BasicReleaser.released)) ==> (!result && i.err == ErrIterReleased)
 //@   at before call iterator.IteratorSeeker.Last#1
 //@     assert [C02:the-index-goes-to-its-last-entry] recv == i.index
@@ -162,6 +168,8 @@ package iterator
 //@ func (*indexedIterator).First
 //@   props C02 C18
 //@   safety off
+//@   at before stmt return false#3
+//@     assert [C02:an-empty-index-leaves-no-block-in-hand] i.data == nil
 //@   ensures [C02,C18:a-released-iterator-reports-that-it-was-released] (old(i.err) == nil && old(i.BasicReleaser.released)) ==> (!result && i.err == ErrIterReleased)
 //@   at before call iterator.IteratorSeeker.First#1
 //@     assert [C02:the-index-goes-to-its-first-entry] recv == i.index
